@@ -11,7 +11,7 @@ static CaseText ser(const C &c) { CaseText t; t.put_i("mode", c.mode); t.put_i("
 static C de(const CaseText &t) { C c; c.mode = (int)t.get_i("mode"); c.batch = (int)t.get_i("batch"); c.neg = (int)t.get_i("neg"); c.pick = (uint32_t)t.get_u("pick"); c.fs = gf::getSpec(t); return c; }
 
 static rc::Gen<C> genC(bool negative) {
-  gf::Opts o; o.nested = true; o.max_cols = 4; o.max_rows = 30;
+  gf::Opts o; o.nested = true; o.max_cols = 4; o.max_rows = 30; o.long_period = !negative; o.logical_types = true;
   return rc::gen::map(rc::gen::tuple(gf::specGen(o), irange(0, 2), rc::gen::weightedOneOf<int>({{3, irange(1, 9)}, {1, irange(10, 70)}}), negative ? irange(1, 8) : rc::gen::just(0), irange(0, 1 << 20)),
                       [](const std::tuple<pw::FileSpec, int, int, int, int> &t) { C c; c.fs = std::get<0>(t); c.mode = std::get<1>(t); c.batch = std::get<2>(t); c.neg = std::get<3>(t); c.pick = (uint32_t)std::get<4>(t); return c; });
 }
